@@ -83,7 +83,7 @@ mod imp {
         let g = Gauge::new();
         let mut model = 0.0f64;
         let mut ups = 0u64;
-        for _ in 0..3 {
+        for _ in 0..2 {
             let v = f64::from_bits(nd::any::<u64>());
             match nd::below(4) {
                 0 => { g.set(v); model = v; ups += 1; }
